@@ -19,7 +19,8 @@ pub const SCALES: [f64; 3] = [1.0, 10.0, 100.0];
 pub const ALPHAS: [f64; 4] = [0.0, 1e-3, 1.0, 10.0];
 pub const SIGNALS: [f64; 4] = [0.0, 0.7, 2.0, 5.0];
 pub const TOLS: [f64; 2] = [1e-4, 1e-6];
-pub const MAX_ITER: u64 = 2000;
+/// first fit; a non-stationary result is re-fitted with twice as many iterations (the DESIGN's 2000)
+pub const MAX_ITER: u64 = 1000;
 /// alpha used instead of 0 when the harness cannot certify that the data are not separable
 pub const FORCED_ALPHA: f64 = 1.0;
 /// certificate of non-separability: own Newton solution of the alpha = 0 problem with
@@ -322,6 +323,8 @@ fn extreme_rows(x: &[Vec<f64>], p: usize, scale: f64, lin: &dyn Fn(&[f64]) -> (f
 
 pub struct Outcome {
     pub verdict: Option<Verdict>,
+    /// the non-stationary verdict carries the signature of the log-sum-exp defect (see fit_multi)
+    pub lse_defect: bool,
 }
 
 fn fit_binary<C: Lab>(obs: &mut Obs, tag: &'static str, x: &[Vec<f64>], labels: &[C], p: usize, scale: f64, cfg: &Cfg) -> Outcome {
@@ -329,21 +332,24 @@ fn fit_binary<C: Lab>(obs: &mut Obs, tag: &'static str, x: &[Vec<f64>], labels: 
     let xa = to_array2(x, p);
     let ya: Array1<C> = Array1::from(labels.to_vec());
     let ds = DatasetBase::new(xa.clone(), ya);
-    let mut params = LogisticRegression::<f64>::default()
-        .alpha(cfg.alpha)
-        .with_intercept(cfg.intercept)
-        .max_iterations(MAX_ITER)
-        .gradient_tolerance(cfg.tol);
-    if let Some(init) = &cfg.init {
-        let d = p + cfg.intercept as usize;
-        params = params.initial_params(Array1::from((0..d).map(|j| at(init, j)).collect::<Vec<_>>()));
-    }
-    let Some(res) = obs.call("binary:fit", || params.fit(&ds)) else { return Outcome { verdict: None } };
+    let build = |max_iter: u64| {
+        let mut params = LogisticRegression::<f64>::default()
+            .alpha(cfg.alpha)
+            .with_intercept(cfg.intercept)
+            .max_iterations(max_iter)
+            .gradient_tolerance(cfg.tol);
+        if let Some(init) = &cfg.init {
+            let d = p + cfg.intercept as usize;
+            params = params.initial_params(Array1::from((0..d).map(|j| at(init, j)).collect::<Vec<_>>()));
+        }
+        params
+    };
+    let Some(res) = obs.call("binary:fit", || build(MAX_ITER).fit(&ds)) else { return Outcome { verdict: None, lse_defect: false } };
     let model = match res {
         Ok(m) => m,
         Err(_) => {
             obs.class("binary_fit_err");
-            return Outcome { verdict: None };
+            return Outcome { verdict: None, lse_defect: false };
         }
     };
     // reported classes
@@ -357,7 +363,7 @@ fn fit_binary<C: Lab>(obs: &mut Obs, tag: &'static str, x: &[Vec<f64>], labels: 
     if !obs.ensure(rep == train, "binary:labels-not-training-classes", || {
         format!("[{tag}] labels() reports {:?} / {:?}, training classes are {:?}", pos, neg, train)
     }) {
-        return Outcome { verdict: None };
+        return Outcome { verdict: None, lse_defect: false };
     }
     obs.ensure(
         model.labels().pos.label == 1.0 && model.labels().neg.label == -1.0,
@@ -369,7 +375,7 @@ fn fit_binary<C: Lab>(obs: &mut Obs, tag: &'static str, x: &[Vec<f64>], labels: 
     let w: Vec<f64> = model.params().to_vec();
     let b = model.intercept();
     if !obs.ensure(w.len() == p, "binary:shape", || format!("[{tag}] params() has {} entries for {} features", w.len(), p)) {
-        return Outcome { verdict: None };
+        return Outcome { verdict: None, lse_defect: false };
     }
     if !cfg.intercept {
         obs.ensure(b == 0.0, "binary:intercept-without-intercept", || {
@@ -382,10 +388,26 @@ fn fit_binary<C: Lab>(obs: &mut Obs, tag: &'static str, x: &[Vec<f64>], labels: 
     if cfg.intercept {
         theta.push(b);
     }
-    let j = model::judge(&obj, &theta, cfg.tol);
+    let mut j = model::judge(&obj, &theta, cfg.tol);
+    if j.verdict == Verdict::NotStationary {
+        // Did the run stop on its own, or was it cut off by max_iterations? A deterministic solver that stopped on
+        // its own returns bit-identical parameters when it is allowed twice as many iterations.
+        let same = match vengine::guard(|| build(2 * MAX_ITER).fit(&ds)) {
+            Ok(Ok(m2)) => {
+                m2.intercept().to_bits() == b.to_bits()
+                    && m2.params().len() == w.len()
+                    && m2.params().iter().zip(&w).all(|(a, c)| a.to_bits() == c.to_bits())
+            }
+            _ => false,
+        };
+        if !same {
+            j.verdict = Verdict::IterationCap;
+        }
+    }
     match j.verdict {
-        Verdict::Stationary => {}
+        Verdict::Stationary => obs.class(model::grad_class(j.gnorm, cfg.tol)),
         Verdict::Stalled => obs.class("binary_stalled_at_cost_resolution"),
+        Verdict::IterationCap => obs.class("binary_stopped_by_max_iterations"),
         Verdict::Undefined => obs.fail(
             "binary:nonfinite-params",
             format!("[{tag}] fit returned Ok with params {:?}, intercept {}", w, b),
@@ -454,7 +476,7 @@ fn fit_binary<C: Lab>(obs: &mut Obs, tag: &'static str, x: &[Vec<f64>], labels: 
             }
         }
     }
-    Outcome { verdict: Some(j.verdict) }
+    Outcome { verdict: Some(j.verdict), lse_defect: false }
 }
 
 // ------------------------------------------------------------------------------------------------
@@ -470,34 +492,37 @@ fn fit_multi<C: Lab>(obs: &mut Obs, tag: &'static str, x: &[Vec<f64>], labels: &
     train.dedup();
     let k = train.len();
     let rows = p + cfg.intercept as usize;
-    let mut params = MultiLogisticRegression::<f64>::default()
-        .alpha(cfg.alpha)
-        .with_intercept(cfg.intercept)
-        .max_iterations(MAX_ITER)
-        .gradient_tolerance(cfg.tol);
-    if let Some(init) = &cfg.init {
-        params = params.initial_params(Array2::from_shape_fn((rows, k), |(r, c)| at(init, r * K_MAX + c)));
-    }
-    let Some(res) = obs.call("multi:fit", || params.fit(&ds)) else { return Outcome { verdict: None } };
+    let build = |max_iter: u64| {
+        let mut params = MultiLogisticRegression::<f64>::default()
+            .alpha(cfg.alpha)
+            .with_intercept(cfg.intercept)
+            .max_iterations(max_iter)
+            .gradient_tolerance(cfg.tol);
+        if let Some(init) = &cfg.init {
+            params = params.initial_params(Array2::from_shape_fn((rows, k), |(r, c)| at(init, r * K_MAX + c)));
+        }
+        params
+    };
+    let Some(res) = obs.call("multi:fit", || build(MAX_ITER).fit(&ds)) else { return Outcome { verdict: None, lse_defect: false } };
     let model = match res {
         Ok(m) => m,
         Err(_) => {
             obs.class("multi_fit_err");
-            return Outcome { verdict: None };
+            return Outcome { verdict: None, lse_defect: false };
         }
     };
     let classes: Vec<C> = model.classes().to_vec();
     if !obs.ensure(classes == train, "multi:classes-not-training-classes", || {
         format!("[{tag}] classes() = {:?}, sorted training classes are {:?}", classes, train)
     }) {
-        return Outcome { verdict: None };
+        return Outcome { verdict: None, lse_defect: false };
     }
     let wm = model.params().clone();
     let bv = model.intercept().clone();
     if !obs.ensure(wm.dim() == (p, k) && bv.len() == k, "multi:shape", || {
         format!("[{tag}] params() is {:?}, intercept() has {} entries; expected ({p},{k}) and {k}", wm.dim(), bv.len())
     }) {
-        return Outcome { verdict: None };
+        return Outcome { verdict: None, lse_defect: false };
     }
     if !cfg.intercept {
         obs.ensure(bv.iter().all(|v| *v == 0.0), "multi:intercept-without-intercept", || {
@@ -517,18 +542,52 @@ fn fit_multi<C: Lab>(obs: &mut Obs, tag: &'static str, x: &[Vec<f64>], labels: &
             theta[p * k + kk] = bv[kk];
         }
     }
-    let j = model::judge(&obj, &theta, cfg.tol);
+    let mut lse_defect = false;
+    let mut j = model::judge(&obj, &theta, cfg.tol);
+    if j.verdict == Verdict::NotStationary {
+        // see fit_binary: was the run cut off by max_iterations?
+        let same = match vengine::guard(|| build(2 * MAX_ITER).fit(&ds)) {
+            Ok(Ok(m2)) => {
+                m2.params().dim() == wm.dim()
+                    && m2.params().iter().zip(wm.iter()).all(|(a, c)| a.to_bits() == c.to_bits())
+                    && m2.intercept().len() == bv.len()
+                    && m2.intercept().iter().zip(bv.iter()).all(|(a, c)| a.to_bits() == c.to_bits())
+            }
+            _ => false,
+        };
+        if !same {
+            j.verdict = Verdict::IterationCap;
+        }
+    }
     match j.verdict {
-        Verdict::Stationary => {}
+        Verdict::Stationary => obs.class(model::grad_class(j.gnorm, cfg.tol)),
         Verdict::Stalled => obs.class("multi_stalled_at_cost_resolution"),
+        Verdict::IterationCap => obs.class("multi_stopped_by_max_iterations"),
         Verdict::Undefined => obs.fail("multi:nonfinite-params", format!("[{tag}] fit returned Ok with non-finite parameters {:?}", theta)),
-        Verdict::NotStationary => obs.fail(
-            "multi:not-stationary",
-            format!(
-                "[{tag}] |grad| = {:.3e} > bound {:.3e} (tol {:.0e}) at the returned point; F = {:.6}, F - F(polished) = {:?}; alpha = {}, intercept = {}, n = {}, classes = {}",
-                j.gnorm, j.bound, cfg.tol, j.f, j.gap, cfg.alpha, cfg.intercept, n, k
-            ),
-        ),
+        Verdict::NotStationary => {
+            // linfa's log_sum_exp subtracts the maximum of the WHOLE score matrix and clamps every row sum at 1e-15.
+            // When some training row lies more than ~34.5 below the global maximum its log-probabilities (hence loss
+            // and gradient) are wrong. The harness recomputes the loss that way: if it differs from the true loss at
+            // the returned point, the failure is attributed to that defect and gets its own signature.
+            let f_def = obj.value_global_max_clamped(&theta);
+            lse_defect = (f_def - j.f).abs() > 1e-9 * j.f.abs().max(1.0);
+            obs.fail(
+                if lse_defect { "multi:not-stationary:log-sum-exp-global-max" } else { "multi:not-stationary" },
+                format!(
+                    "[{tag}] |grad| = {:.3e} > bound {:.3e} (tol {:.0e}) at the returned point; F = {:.6}, F - F(polished) = {:?}; alpha = {}, intercept = {}, n = {}, classes = {}{}",
+                    j.gnorm,
+                    j.bound,
+                    cfg.tol,
+                    j.f,
+                    j.gap,
+                    cfg.alpha,
+                    cfg.intercept,
+                    n,
+                    k,
+                    if lse_defect { format!("; loss with global-max shift and 1e-15 clamp = {:.6} (true loss {:.6})", f_def, j.f) } else { String::new() }
+                ),
+            )
+        }
     }
 
     // probabilities
@@ -610,7 +669,7 @@ fn fit_multi<C: Lab>(obs: &mut Obs, tag: &'static str, x: &[Vec<f64>], labels: &
             obs.class_if(saw_extreme, "multi_extreme_scores");
         }
     }
-    Outcome { verdict: Some(j.verdict) }
+    Outcome { verdict: Some(j.verdict), lse_defect }
 }
 
 // ------------------------------------------------------------------------------------------------
@@ -744,26 +803,24 @@ pub fn check(case: &LogitCase, obs: &mut Obs) {
     let ident: Vec<usize> = (0..USIZE_POOL.len()).collect();
     let b = run_variant(obs, case, "canonical order/usize labels", &d.x, &d.c, LabelKind::Usize, &ident, d.p, d.scale, &cfg);
 
-    match (&a.verdict, &b.verdict) {
-        (Some(va), Some(vb)) => {
-            let bad_a = *va == Verdict::NotStationary || *va == Verdict::Undefined;
-            let bad_b = *vb == Verdict::NotStationary || *vb == Verdict::Undefined;
-            if bad_a != bad_b {
-                obs.fail(
-                    if case.multi { "multi:verdict-changes-under-relabelling" } else { "binary:verdict-changes-under-relabelling" },
-                    format!("stationarity verdict {:?} for the generated order/naming but {:?} for the same data in canonical order with usize labels", va, vb),
-                );
-            }
-            if *va == Verdict::Stalled || *vb == Verdict::Stalled {
-                // at least one of the two fits is not judged on stationarity; everything else was judged
-                obs.class("one_fit_not_judged_on_stationarity");
-            }
-            obs.nontrivial_if(overlapping || (case.kind == LabelKind::Str && unsorted_names));
+    let bad = |v: &Verdict| matches!(v, Verdict::NotStationary | Verdict::Undefined);
+    let unjudged = |v: &Verdict| matches!(v, Verdict::Stalled | Verdict::IterationCap);
+    if let (Some(va), Some(vb)) = (&a.verdict, &b.verdict) {
+        // (a failure already attributed to the log-sum-exp defect is not reported a second time under this signature)
+        if (bad(va) && !a.lse_defect && *vb == Verdict::Stationary) || (bad(vb) && !b.lse_defect && *va == Verdict::Stationary) {
+            obs.fail(
+                if case.multi { "multi:verdict-changes-under-relabelling" } else { "binary:verdict-changes-under-relabelling" },
+                format!("stationarity verdict {:?} for the generated order/naming but {:?} for the same data in canonical order with usize labels", va, vb),
+            );
         }
-        _ => {
-            if obs.fails.is_empty() {
-                obs.skip("fit_not_judged");
-            }
-        }
+    }
+    // a case counts as judged when at least one of its two fits got a stationarity verdict
+    let judged = [&a.verdict, &b.verdict].iter().any(|v| matches!(v, Some(v) if !unjudged(v)));
+    let partly = [&a.verdict, &b.verdict].iter().any(|v| !matches!(v, Some(v) if !unjudged(v)));
+    if judged {
+        obs.class_if(partly, "one_fit_not_judged_on_stationarity");
+        obs.nontrivial_if(overlapping || (case.kind == LabelKind::Str && unsorted_names));
+    } else if obs.fails.is_empty() {
+        obs.skip("fit_not_judged");
     }
 }
